@@ -125,11 +125,18 @@ example : Java.getToken (List.replicate 10 [0x00, 0xff, 0x10, 0xfa, 0x99]).flatt
 example : Java.getToken (List.replicate 8 0xfe) = -8927430733708461935 := by decide +kernel
 example : Java.getToken (List.replicate 8 0x10) = 1446172840243228796 := by decide +kernel
 example : Java.getToken "9223372036854775807".toUTF8.toList = 7162290910810015547 := by decide +kernel
--- regression values (NOT public vectors; no public vector with bytes ≥ 0x80 in tail positions 8..14 is known to me):
--- 31 bytes 0x80..0x9e = 1 block + 15-byte tail, every tail position 0..14 ≥ 0x80; unsigned tail bytes would give
--- a different value (second conjunct: the signed and the zero-extended readings differ on this input)
-example : Java.getToken ((List.range 31).map (fun i => UInt8.ofNat (0x80 + i))) = murmur3Spec
-    ((List.range 31).map (fun i => UInt8.ofNat (0x80 + i))) := by decide +kernel
+-- tests: bytes ≥ 0x80 in the tail positions 8..14 (cases 9..15 of the switch). No public vector of this shape is
+-- known; these four literals were computed by the round-2 auditor with an independent Python implementation of
+-- Cassandra's variant (/tmp/audit2-audit2-A/C03/mm3.py, Vec.lean) - second-source values, not server-derived:
+-- 31 bytes 0x80..0x9e (1 block + 15-byte tail); 47 bytes (0xf3·i + 0x91) mod 256 (2 blocks + 15); 30 × 0xff
+-- (1 block + 14); 27 bytes 0x80 | 7i (1 block + 11)
+example : Java.getToken ((List.range 31).map (fun i => UInt8.ofNat (0x80 + i))) = -9222542793393665168 := by
+  decide +kernel
+example : Java.getToken ((List.range 47).map (fun i => UInt8.ofNat ((0xf3 * i + 0x91) % 256))) =
+    212906451388177509 := by decide +kernel
+example : Java.getToken (List.replicate 30 0xff) = 911528564376864884 := by decide +kernel
+example : Java.getToken ((List.range 27).map (fun i => UInt8.ofNat ((0x80 ||| (7 * i)) % 256))) =
+    -6330466746548984052 := by decide +kernel
 
 /-! ### tests (not theorems): the (string, token) vectors of `partitioner.rs`, obtained from a real cluster,
 validate the transliteration `murmur3Spec` of Cassandra's Java code and `cdcSpec` -/
@@ -242,6 +249,81 @@ example : murmur3Suffix = "Murmur3Partitioner".toUTF8.toList ∧ cdcSuffix = "CD
     selectPartitioner (some "org.apache.cassandra.dht.RandomPartitioner".toUTF8.toList) = .murmur3 ∧
     selectPartitioner none = .murmur3 := by decide +kernel
 
+/-! ### the partitioner a prepared statement gets: the lookup in the metadata snapshot (`Session::prepare`) -/
+
+/-- A prepared statement gets the CDC partitioner exactly when, in the metadata snapshot the session holds at prepare
+time, the keyspace and the table of its first bind marker are present and the table's partitioner string ends in
+`CDCPartitioner`. -/
+theorem preparedPartitioner_cdc_iff (tableSpec : Option (List UInt8 × List UInt8)) (schema : SchemaSnapshot) :
+    preparedPartitioner tableSpec schema = .cdc ↔
+      ∃ ks table tables name, tableSpec = some (ks, table) ∧ schema.lookup ks = some tables ∧
+        tables.lookup table = some (some name) ∧ cdcSuffix <:+ name ∧ ¬ murmur3Suffix <:+ name := by
+  unfold preparedPartitioner
+  rw [selectPartitioner_cdc_iff]
+  unfold extractPartitionerName
+  constructor
+  · rintro ⟨s, hs, h1, h2⟩
+    match tableSpec, hs with
+    | some (ks, table), hs =>
+      simp only [] at hs
+      cases hk : schema.lookup ks with
+      | none => rw [hk] at hs; cases hs
+      | some tables =>
+        rw [hk] at hs
+        simp only [] at hs
+        cases ht : tables.lookup table with
+        | none => rw [ht] at hs; cases hs
+        | some part =>
+          rw [ht] at hs
+          simp only [] at hs
+          exact ⟨ks, table, tables, s, rfl, hk, by rw [ht, hs], h1, h2⟩
+  · rintro ⟨ks, table, tables, name, rfl, hk, ht, h1, h2⟩
+    exact ⟨name, by simp only [hk, ht], h1, h2⟩
+
+/-- The silent fallback: a statement without bind markers, a keyspace or a table missing from the snapshot (schema
+fetching disabled, or the snapshot older than the table), a table without a partitioner entry, or an unrecognised
+partitioner string — each gives the default partitioner, Murmur3, also for a CDC log table. -/
+theorem preparedPartitioner_default (tableSpec : Option (List UInt8 × List UInt8)) (schema : SchemaSnapshot)
+    (h : tableSpec = none ∨
+      (∃ ks table, tableSpec = some (ks, table) ∧
+        (schema.lookup ks = none ∨
+          ∃ tables, schema.lookup ks = some tables ∧
+            (tables.lookup table = none ∨ tables.lookup table = some none ∨
+              ∃ name, tables.lookup table = some (some name) ∧ ¬ cdcSuffix <:+ name)))) :
+    preparedPartitioner tableSpec schema = .murmur3 := by
+  cases hp : preparedPartitioner tableSpec schema with
+  | murmur3 => rfl
+  | cdc =>
+    exfalso
+    obtain ⟨ks, table, tables, name, hts, hk, ht, h1, _⟩ := (preparedPartitioner_cdc_iff _ _).mp hp
+    rcases h with h | ⟨ks', table', hts', h⟩
+    · rw [h] at hts; cases hts
+    · rw [hts'] at hts
+      cases hts
+      rcases h with h | ⟨tables', hk', h⟩
+      · rw [h] at hk; cases hk
+      · rw [hk'] at hk
+        cases hk
+        rcases h with h | h | ⟨name', h, hn⟩
+        · rw [h] at ht; cases ht
+        · rw [h] at ht; cases ht
+        · rw [h] at ht
+          cases ht
+          exact hn h1
+
+-- tests: a snapshot with ks.t (no partitioner), ks.t_scylla_cdc_log (CDC); lookups of present / absent tables
+example :
+    let ks := "ks".toUTF8.toList
+    let schema : SchemaSnapshot :=
+      [(ks, [("t".toUTF8.toList, none),
+             ("t_scylla_cdc_log".toUTF8.toList, some "com.scylladb.dht.CDCPartitioner".toUTF8.toList)])]
+    preparedPartitioner (some (ks, "t_scylla_cdc_log".toUTF8.toList)) schema = .cdc ∧
+      preparedPartitioner (some (ks, "t".toUTF8.toList)) schema = .murmur3 ∧
+      preparedPartitioner (some (ks, "absent".toUTF8.toList)) schema = .murmur3 ∧
+      preparedPartitioner (some ("nks".toUTF8.toList, "t_scylla_cdc_log".toUTF8.toList)) schema = .murmur3 ∧
+      preparedPartitioner (some (ks, "t_scylla_cdc_log".toUTF8.toList)) [] = .murmur3 ∧
+      preparedPartitioner none schema = .murmur3 := by decide +kernel
+
 /-! ### partition key extraction: key order is independent of bind-marker order -/
 
 /-- The key components a statement's bound values hold, in partition-key order: component `seq` is the value bound
@@ -321,18 +403,56 @@ example :
   rw [extract_in_pk_order [4, 0, 3] _ (by decide) (by decide) (by decide)]
   decide
 
-/-- The error branch: a marker index at or beyond the number of bound values is reported, not skipped. -/
-theorem extract_missing_value (ix : Nat) (values : List RawValue) (h : values.length ≤ ix) :
-    extract (pkIndexesOfWire [ix]) values = .error (.noPkIndexValue ix values.length) := by
-  have hp : pkIndexesOfWire [ix] = [⟨ix, 0⟩] := by
-    simp [pkIndexesOfWire, wirePairs]
-  rw [hp]
-  unfold extract extractLoop
-  rw [if_neg (by omega)]
-  have : values.drop ix = [] := List.drop_of_length_le (by omega)
-  rw [Nat.sub_zero, this]
+/-- **The error branch.** If some key marker of the frame is at or beyond the number of bound values, no key is
+extracted: `NoPkIndexValue(m, count)` is returned for the SMALLEST such marker `m` (markers are visited in ascending
+order), whatever the other markers and their order in the frame (marker indexes are `u16` on the wire). -/
+theorem extract_missing_value (wire : List Nat) (values : List RawValue) (hnd : wire.Nodup)
+    (hu16 : ∀ ix ∈ wire, ix < 65536) (hv : values.length ≤ 65535) (hbad : ∃ ix ∈ wire, values.length ≤ ix) :
+    ∃ m, m ∈ wire ∧ values.length ≤ m ∧ (∀ ix ∈ wire, values.length ≤ ix → m ≤ ix) ∧
+      extract (pkIndexesOfWire wire) values = .error (.noPkIndexValue m values.length) := by
+  have hk : wire.length ≤ 65536 := nodup_bounded_length 65536 wire hnd hu16
+  obtain ⟨hperm, hsorted, _⟩ := pkIndexesOfWire_props wire hk hnd
+  have hlen : (pkIndexesOfWire wire).length = wire.length := pkIndexesOfWire_length wire
+  have hmem : ∀ p ∈ pkIndexesOfWire wire, p.sequence < wire.length ∧ p.index ∈ wire := by
+    intro p hp
+    have := mem_wirePairs wire 0 p (by omega) (hperm.mem_iff.mp hp)
+    exact ⟨by omega, List.mem_of_getElem? this.2.2⟩
+  have hidx : ∀ ix ∈ wire, ∃ p ∈ pkIndexesOfWire wire, p.index = ix := by
+    intro ix hix
+    obtain ⟨s, hs, rfl⟩ := List.mem_iff_getElem.mp hix
+    have := wirePairs_mem wire 0 s hs (by omega)
+    exact ⟨_, hperm.mem_iff.mpr this, rfl⟩
+  obtain ⟨ix, hix, hixl⟩ := hbad
+  obtain ⟨p0, hp0, hp0i⟩ := hidx ix hix
+  obtain ⟨m, hm, hml, hmin, hres⟩ := extractLoop_missing values hv (pkIndexesOfWire wire) 0
+    (List.replicate (pkIndexesOfWire wire).length none) hsorted
+    (by
+      intro p hp
+      refine ⟨Nat.zero_le _, ?_⟩
+      rw [List.length_replicate, hlen]; exact (hmem p hp).1)
+    ⟨p0, hp0, by omega⟩
+  rw [List.drop_zero] at hres
+  refine ⟨m.index, (hmem m hm).2, hml, ?_, ?_⟩
+  · intro jx hjx hjl
+    obtain ⟨q, hq, rfl⟩ := hidx jx hjx
+    exact hmin q hq hjl
+  · unfold extract
+    exact hres
 
-example : extract (pkIndexesOfWire [2]) [.value [1], .null] = .error (.noPkIndexValue 2 2) := by decide +kernel
+/-- The single-marker instance. -/
+theorem extract_missing_value_single (ix : Nat) (values : List RawValue) (hix : ix < 65536)
+    (hv : values.length ≤ 65535) (h : values.length ≤ ix) :
+    extract (pkIndexesOfWire [ix]) values = .error (.noPkIndexValue ix values.length) := by
+  obtain ⟨m, hm, _, _, hres⟩ := extract_missing_value [ix] values (by simp) (by simpa using hix) hv ⟨ix, by simp, h⟩
+  have : m = ix := by simpa using hm
+  rw [this] at hres
+  exact hres
+
+-- non-vacuity: key markers (7, 1, 5) with 3 bound values: markers 5 and 7 are missing, 5 is reported
+example : ∃ m, m ∈ [7, 1, 5] ∧ 3 ≤ m ∧ (∀ ix ∈ [7, 1, 5], 3 ≤ ix → m ≤ ix) ∧
+    extract (pkIndexesOfWire [7, 1, 5]) [.value [1], .null, .value [2]] = .error (.noPkIndexValue m 3) :=
+  extract_missing_value [7, 1, 5] [.value [1], .null, .value [2]] (by decide) (by decide) (by decide)
+    ⟨7, by decide, by decide⟩
 
 /-! ### the token formula -/
 
@@ -379,13 +499,14 @@ theorem token_formula (cdc : Bool) (wire : List Nat) (values : List RawValue) (c
   | true => simp only [if_true]; rw [cdc_chunking_independent, hfl]
 
 /-- The token formula against the server's own functions: for a non-empty serialized key the Murmur3 token is
-`Murmur3Partitioner.getToken`, and for a CDC table — whose key is the single 16-byte stream id — the CDC token is
-`cdc_partitioner::get_token`. -/
+`Murmur3Partitioner.getToken`, and for a CDC table — whose key is the SINGLE component `cdc$stream_id` of 16 bytes
+(a composite key whose encoding merely happens to be 16 bytes long is excluded) — the CDC token is
+`cdc_partitioner::get_token` of the stream id. -/
 theorem token_formula_server (cdc : Bool) (wire : List Nat) (values : List RawValue) (comps : List (List UInt8))
     (hne : wire ≠ []) (hnd : wire.Nodup) (hlt : ∀ ix ∈ wire, ix < values.length) (hv : values.length ≤ 65535)
     (hbound : keyOf wire values = comps.map some)
     (hsmall : 2 ≤ comps.length → ∀ c ∈ comps, c.length ≤ 65535)
-    (hdom : if cdc then (encodeKey comps).length = 16 else encodeKey comps ≠ []) :
+    (hdom : if cdc then ∃ c, comps = [c] ∧ c.length = 16 else encodeKey comps ≠ []) :
     calculateToken cdc (pkIndexesOfWire wire) values =
       .ok (some (if cdc then cdcSpec (encodeKey comps) else Java.getToken (encodeKey comps))) := by
   rw [token_formula cdc wire values comps hne hnd hlt hv hbound hsmall]
@@ -395,7 +516,8 @@ theorem token_formula_server (cdc : Bool) (wire : List Nat) (values : List RawVa
     rw [murmur3Spec_eq_server _ hdom]
   | true =>
     simp only [if_true] at hdom ⊢
-    rw [cdc_eq_server_16 _ hdom]
+    obtain ⟨c, rfl, hc⟩ := hdom
+    rw [cdc_eq_server_16 _ (by simpa [encodeKey] using hc)]
 
 /-- A composite key is never empty, so only the single-component empty key is outside `token_formula_server`. -/
 theorem encodeKey_composite_ne_nil (v w : List UInt8) (rest : List (List UInt8)) :
